@@ -377,6 +377,27 @@ class Inliner:
         assigned = _assigned_names(gbody)
         ren = {n: n + suffix for n in assigned
                if n not in env and n in self.caller_names}
+        # "for a, b in g(..)" with g yielding tuples of its own locals: the
+        # locals become a and b themselves (the code as it was before the
+        # generator was extracted)
+        direct = False
+        if isinstance(loop.target, ast.Tuple) and all(
+                isinstance(x, ast.Name) for x in loop.target.elts):
+            ys = [x.value for st in gbody for x in ast.walk(st)
+                  if isinstance(x, ast.Yield)]
+            tn = [x.id for x in loop.target.elts]
+            if ys and all(isinstance(y, ast.Tuple) and len(y.elts) == len(tn)
+                          and all(isinstance(z, ast.Name) for z in y.elts)
+                          for y in ys):
+                maps = {tuple(z.id for z in y.elts) for y in ys}
+                if len(maps) == 1:
+                    src = list(maps)[0]
+                    others = assigned - set(src)
+                    if len(set(src)) == len(src) and not (
+                            set(tn) & others) and not (set(src) & set(env)):
+                        for a_, b_ in zip(src, tn):
+                            ren[a_] = b_
+                        direct = True
         full = dict(env)
         full.update(ren)
         pre = []
@@ -419,6 +440,8 @@ class Inliner:
                             return n
 
                     return [A().visit(b) for b in body]
+            if direct:
+                return body
             return [ast.Assign(targets=[clone(tgt)], value=value)] + body
 
         class Y(ast.NodeTransformer):
@@ -681,7 +704,7 @@ class Inliner:
                                 r = _Subst(env).visit(clone(b_))
                                 new.extend(r if isinstance(r, list) else [r])
                         blk[i - 1:i] = new
-                        i += len(new) - 1
+                        i -= 1  # re-scan what was inserted (nested loops)
                         self.notes.append(f'{f.name}: unrolled loop over a '
                                           f'{len(it.elts)}-element literal')
 
